@@ -1143,6 +1143,10 @@ impl SolarDay {
       m = m.next(-1);
       days += m.get_day_count() as isize;
     }
+    while days >= m.get_day_count() as isize {
+      days -= m.get_day_count() as isize;
+      m = m.next(1);
+    }
     LunarDay::from_ymd(m.get_year(), m.get_month_with_leap(), (days + 1) as usize)
   }
 
